@@ -529,11 +529,14 @@ def features_with_grammar(f, grammar) -> List[str]:
         # other (its type is reachable from the other's type, or the types are equal)
         r = reach(grammar)
         types: Dict[str, str] = {"start": "<start>"}
+        mexpr_bound: Set[str] = set()
 
         def collect_types(g):
             if isinstance(g, list) and g:
                 if g[0] in ("forall", "exists") and len(g) == 6:
                     types[g[2]] = g[1]
+                    if g[3] is not None:
+                        mexpr_bound.add(g[2])
                     for el in g[3] or []:
                         if el[0] == "b":
                             types[el[1]] = el[2]
@@ -567,6 +570,36 @@ def features_with_grammar(f, grammar) -> List[str]:
                     walk(x)
 
         walk(f)
+
+        # ... or two *different* SMT atoms of the formula, one about each variable: the
+        # atoms end up in one Z3 query in which the variables are independent, and
+        # substituting the outer variable's solution overwrites the inner one's subtree
+        atom_vars: List[Set[str]] = []
+
+        def atoms(g):
+            if isinstance(g, list) and g:
+                if g[0] == "smt":
+                    vs: Set[str] = set()
+                    tvars(g[1], vs)
+                    atom_vars.append(vs)
+                    return
+                for x in g:
+                    atoms(x)
+
+        atoms(f)
+        for i, va in enumerate(atom_vars):
+            for j, vb in enumerate(atom_vars):
+                if i != j and any(
+                    a != b and (
+                        types[b] in r.get(types[a], ())
+                        # same type: matters when a quantifier with a match expression is
+                        # instantiated late (the other variable's solution, parsed into a
+                        # new subtree, can match the expression)
+                        or (types[a] == types[b] and (a in mexpr_bound or b in mexpr_bound))
+                    )
+                    for a in va for b in vb
+                ):
+                    out.add("smt_atoms_over_possibly_nested_variables")
         return sorted(out)
     finally:
         _GRAMMAR_FOR_FEATURES[0] = None
